@@ -24,6 +24,13 @@ def fresh_name(base):
     return "%s!%d" % (base, next(_cnt))
 
 
+def reset_names():
+    """restart the fresh-name counter (called per function so that the generated obligations are textually
+    identical from run to run, whatever else was verified before)"""
+    global _cnt
+    _cnt = itertools.count()
+
+
 class Unsupported(Exception):
     """Construct outside the modelled subset: the function is reported undecided, never violated."""
 
@@ -288,9 +295,21 @@ def _num_kind(a, b):
     return 'int'
 
 
+def _is_zero(v):
+    return is_conc_num(v) and not isinstance(v, bool) and v == 0 and not isinstance(v, float)
+
+
+def _is_one(v):
+    return is_conc_num(v) and not isinstance(v, bool) and v == 1 and not isinstance(v, float)
+
+
 def s_add(a, b):
     if is_conc_num(a) and is_conc_num(b):
         return a + b
+    if _is_zero(a) and kind(b) in ('int', 'real', 'xreal'):
+        return b
+    if _is_zero(b) and kind(a) in ('int', 'real', 'xreal'):
+        return a
     k = _num_kind(a, b)
     if k == 'xreal':
         a, b = to_xreal(a), to_xreal(b)
@@ -320,6 +339,10 @@ def s_sub(a, b):
 def s_mul(a, b):
     if is_conc_num(a) and is_conc_num(b):
         return a * b
+    if _is_one(a) and kind(b) in ('int', 'real', 'xreal'):
+        return b
+    if _is_one(b) and kind(a) in ('int', 'real', 'xreal'):
+        return a
     k = _num_kind(a, b)
     if k == 'xreal':
         a, b = to_xreal(a), to_xreal(b)
